@@ -1,6 +1,7 @@
 package harness
 
 import (
+	"time"
 	"fmt"
 	"sort"
 	"strings"
@@ -99,6 +100,29 @@ func (c12) Gen(r *simrt.Rand, idx int, tier string) *Case {
 			if !clash {
 				j.Dirs = append(j.Dirs, Dir{Kind: "price", Date: d, Com: src.Target, Target: src.Com, PriceStr: rec.String(), Price: Q(rec.Mul(decimal.NewFromInt(QScale)).IntPart())})
 			}
+		}
+	}
+	if r.P(0.2) {
+		// declarations from another age (before 1677, after 2262: outside the range of a
+		// 64-bit nanosecond count) next to the modern ones: old ones are superseded by any
+		// later declaration of the pair, future ones do not count yet
+		for k := r.Range(1, 2); k > 0; k-- {
+			a, b := cs[r.Intn(ncom)], cs[r.Intn(ncom)]
+			if len(j.Dirs) > 0 && r.P(0.6) {
+				x := j.Dirs[r.Intn(len(j.Dirs))]
+				a, b = x.Com, x.Target
+				if r.P(0.3) {
+					a, b = b, a
+				}
+			}
+			if a == b {
+				continue
+			}
+			d := D(r.Range(1000, 1650), time.Month(r.Range(1, 12)), r.Range(1, 28))
+			if r.P(0.3) {
+				d = D(r.Range(2270, 2900), time.Month(r.Range(1, 12)), r.Range(1, 28))
+			}
+			addDecl(d, a, b, price())
 		}
 	}
 	if r.P(0.08) {
